@@ -167,6 +167,9 @@ func (r *Run) newG(parent *G, site string, lib bool) *G {
 		g.prio = -1
 	}
 	r.all = append(r.all, g)
+	if lib {
+		r.Sites[site]++
+	}
 	return g
 }
 
